@@ -81,6 +81,7 @@ func genC04(seed uint64, tier string) *Plan {
 		}
 		p.Ops = append(p.Ops, op)
 	}
+	maybeYield(r, p, 0.4)
 	return p
 }
 
